@@ -1708,6 +1708,8 @@ def c10(tier, rng, rep, only=None):
         ops = [("ser", val_sexp(v)) for v in vals]
         if d.family() in ("int", "str"):
             ops += [("ser_text", val_sexp(v)) for v in vals]
+        if d.family() == "str" or (d.family() == "int" and d.inner not in ("u128", "i128")):
+            ops += [("ser_mp_bytes", val_sexp(v)) for v in vals]
         if "TryFrom" in info.traits or "From" in info.traits:
             # the value to serialize may also have been obtained through the derived conversion
             ops += [("ser_conv", val_sexp(v)) for v in vals[::2]]
@@ -1729,6 +1731,12 @@ def c10(tier, rng, rep, only=None):
             rep.violation("serialization panicked on %s" % c.arg, case_payload(c, g))
             continue
         n += 1
+        if c.op == "ser_mp_bytes":
+            fields["msgpack_bytes_vs_model_writer"] = fields.get("msgpack_bytes_vs_model_writer", 0) + 1
+            if c.impl != c.model:
+                rep.violation("MessagePack bytes of the value obtained from %s: implementation %s, model writer (rmp-serde's encoding of the inner value) %s"
+                              % (c.arg, c.impl, c.model), case_payload(c, g), no_input=(c.model is None))
+            continue
         if c.op == "ser_text":
             fields["json_text_vs_model_writer"] = fields.get("json_text_vs_model_writer", 0) + 1
             if c.impl != c.model:
